@@ -59,7 +59,12 @@ def to_set(R, v, ek=None):
     if is_set(v):
         return v.e
     if is_seq(v):
-        raise OutOfReach('set(seq) needs a quantified link; model the field as a set')
+        # set(seq): the members of the sequence, as a lambda set over z3's sequence `Contains`
+        k = z3.FreshConst(R.S.sort_of(v.kind[1]), 'sm')
+        sp = getattr(R.w, 'seq_in_spec', {}).get(v.kind[1])
+        if sp is not None:
+            return z3.Lambda([k], R.call_spec(R.w.specs[sp], [v, ZV(k, v.kind[1])]).e)
+        return z3.Lambda([k], z3.Contains(v.e, z3.Unit(k)))
     items = R.concrete_items(v)
     if items is not None:
         if ek is None:
@@ -348,6 +353,11 @@ def contains(R, x, c):
     if is_seq(c):
         if not R.spec_mode and not seq_equal_ok(R, c.kind[1]):
             raise OutOfReach('`in` on seq of %r without structural __eq__' % (c.kind[1],))
+        sp = getattr(R.w, 'seq_in_spec', {}).get(c.kind[1])
+        if sp is not None:
+            # membership as a recursive spec function of the plan (z3's sequence `Contains` over non-character
+            # elements answers `unknown` even on `xs[i] == x ==> Contains(xs, [x])`)
+            return R.call_spec(R.w.specs[sp], [c, x]).e
         return z3.Contains(c.e, z3.Unit(R.z(x, c.kind[1])))
     if isinstance(c, MapV):
         return R.map_has(c, x)
@@ -878,6 +888,9 @@ def _b_set(R, a, k):
     if items is not None and items:
         kk = R.kind_of(items[0])
         return ZV(R.z(TupleV(items), ('set', kk)), ('set', kk))
+    if is_seq(v) and (R.spec_mode or seq_equal_ok(R, v.kind[1])):
+        # set(xs) for a symbolic sequence: its members (z3 `Contains`), order and multiplicity dropped
+        return ZV(to_set(R, v), ('set', v.kind[1]))
     raise OutOfReach('set(%r)' % (v,))
 
 
